@@ -500,7 +500,7 @@ func (e *env) runOpenSSH(p planItem, i int64, r *rand.Rand) {
 		if stall != nil && stall.Frozen {
 			e.stalls.Add(1)
 			m.Eval()
-			m.Violation("stall:openssh-client-vs-go-server:"+stall.Where+":"+p.dim, witness(stall.Detail))
+			m.Violation("stall:openssh-client-vs-go-server:"+stall.Where, witness(stall.Detail))
 			return
 		}
 		why := "not frozen"
@@ -720,6 +720,16 @@ func TestC27(t *testing.T) {
 	e.runSubstitutes()
 
 	nav := len(authVariants())
+	if m.Thorough() {
+		nprod := 0
+		for _, p := range plan {
+			if p.class == "cipherXmac" {
+				nprod++
+			}
+		}
+		m.Gate("openssh_ok_kexXhostkey", len(lists.kex)*len(lists.hostKey), "thorough: the full kex x host key algorithm product")
+		m.Gate("openssh_ok_cipherXmac", nprod, "thorough: the full cipher x MAC product (AEAD ciphers once, known CBC x EtM pairs skipped)")
+	}
 	m.Gate("openssh_ok_kex", len(lists.kex), "every mutually supported key exchange completed with the OpenSSH client at least once")
 	m.Gate("openssh_ok_hostkey", len(lists.hostKey), "every mutually supported host key algorithm (plain and certificate) was accepted by the OpenSSH client")
 	m.Gate("openssh_ok_cipher", len(lists.cipher), "every mutually supported cipher carried 200 KB each way")
